@@ -387,3 +387,31 @@ M("c14-recipient-gets-collected", "C14", "R14.3", WAL, "                outputs 
 M("c14-sign-drops-outputs", "C14", "R14.4", WAL, "        inputs=signed_inputs,\n        outputs=transaction.outputs,", "        inputs=signed_inputs,\n        outputs=transaction.outputs[:1],")
 M("c14-record-all-candidates", "C14", "R14.1", WAL, "            newly_spent_outputs.append(output_reference)\n\n            inputs.append(Input(output_reference, None))",
   "            inputs.append(Input(output_reference, None))")
+
+# ----------------------------------------------------------------------------------------------- C03
+M("c03-store-heads-on-self", "C03", "R03.1", CS, "            heads = mutable_heads.finish()\n", "            heads = mutable_heads.finish()\n        self.heads = heads\n")
+M("c03-discard-set", "C03", ["R03.1", "R03.2"], CS, "        block_by_hash: immutables.Map[bytes, Block] = self.block_by_hash.set(block_hash, block)\n", "        block_by_hash: immutables.Map[bytes, Block] = self.block_by_hash\n        self.block_by_hash.set(block_hash, block)\n")
+M("c03-uto-from-head", "C03", "R03.2", CS, "            unspent_transaction_outs = self.unspent_transaction_outs_by_hash[block.previous_block_hash]", "            unspent_transaction_outs = self.unspent_transaction_outs_by_hash[self.current_chain_hash]")
+M("c03-cache-by-height", "C03", "R03.3", BAL, "        if key not in self.cache:\n            self.cache[key] = self.public_key_balances_by_hash(key)\n        return self.cache[key]",
+  "        k = len(key)\n        if k not in self.cache:\n            self.cache[k] = self.public_key_balances_by_hash(key)\n        return self.cache[k]")
+M("c03-enumerate-from-one", "C03", "R03.4", BAL, "        for i, output in enumerate(transaction.outputs):\n            output_reference = OutputReference(transaction.hash(), i)\n\n            if output.public_key",
+  "        for i, output in enumerate(transaction.outputs, 1):\n            output_reference = OutputReference(transaction.hash(), i)\n\n            if output.public_key")
+M("c03-drop-ref-filter", "C03", "R03.4", BAL, "                    [to for to in mutable_public_key_balances[public_key].output_references\n                     if to != input.output_reference]", "                    mutable_public_key_balances[public_key].output_references")
+M("c03-pkb-post-block-uto", "C03", "R03.3", BAL, "            public_key_balances = pkb_apply_block(unspent_transaction_outs,\n                                                  public_key_balances,\n                                                  block)\n\n            unspent_transaction_outs = uto_apply_block(unspent_transaction_outs, block)\n",
+  "            unspent_transaction_outs = uto_apply_block(unspent_transaction_outs, block)\n\n            public_key_balances = pkb_apply_block(unspent_transaction_outs,\n                                                  public_key_balances,\n                                                  block)\n")
+M("c03-athead-lkv", "C03", "R03.5", CS, "                return self.unspent_transaction_outs_by_hash[self.current_chain_hash]", "                return self.unspent_transaction_outs_by_hash[next(iter(self.heads))]")
+M("c03-height-index-from-head", "C03", ["R03.2", "R04.4"], CS, "            block_by_height = self.block_by_height_by_hash[block.previous_block_hash]", "            block_by_height = self.by_height_at_head()")
+M("c03-pkb-credit-wrong-key", "C03", "R03.4", BAL, "            mutable_public_key_balances[output.public_key] = PKBalance(\n                mutable_public_key_balances[output.public_key].value + output.value,",
+  "            mutable_public_key_balances[output.public_key] = PKBalance(\n                mutable_public_key_balances[output.public_key].value + 1,")
+M("c03-chain-stops-early", "C03", "R03.3", BAL, "        while block.previous_block_hash != b'\\x00' * 32:", "        while block.previous_block_hash != b'\\x00' * 32 and len(reverse_chain) < 1000:")
+M("c03-external-mutation", "C03", "R03.1", MGR, "            self.coinstate = coinstate\n", "            self.coinstate = coinstate\n            coinstate.current_chain_hash = coinstate.current_chain_hash\n")
+
+# ----------------------------------------------------------------------------------------------- C04
+M("c04-ge", "C04", "R04.1", CS, "        elif block.get_total_work() > self.block_by_hash[self.current_chain_hash].get_total_work():", "        elif block.get_total_work() >= self.block_by_hash[self.current_chain_hash].get_total_work():")
+M("c04-compare-heads-len", "C04", "R04.1", CS, "        elif block.get_total_work() > self.block_by_hash[self.current_chain_hash].get_total_work():", "        elif block.get_total_work() > len(self.heads):")
+M("c04-drop-tip-del", "C04", "R04.3", CS, "            if block.previous_block_hash in mutable_heads:\n                del mutable_heads[block.header.summary.previous_block_hash]\n", "")
+M("c04-index-from-head", "C04", "R04.4", CS, "            block_by_height = self.block_by_height_by_hash[block.previous_block_hash]", "            block_by_height = self.by_height_at_head()")
+M("c04-work-timestamp", "C04", "R04.2", DT, "        return self.height  # type: ignore", "        return self.timestamp  # type: ignore")
+M("c04-always-switch", "C04", "R04.1", CS, "            current_chain_hash = self.current_chain_hash  # a fork, but the most recently added block is non-current", "            current_chain_hash = block_hash")
+M("c04-head-reader", "C04", "R04.5", CS, "        return self.block_by_height_by_hash[self.current_chain_hash]\n\n    @property", "        return self.block_by_height_by_hash[max(self.heads)]\n\n    @property")
+M("c04-tip-del-unconditional-wrong-key", "C04", "R04.3", CS, "            mutable_heads[block_hash] = block\n", "            mutable_heads[block.previous_block_hash] = block\n")
